@@ -188,6 +188,12 @@ def deadline_instant(v, s, b, T):
 def c04(v):
     V = []
     diag = v.res.get("diag", {})
+    # a scheduler that this run never reached names no cause (whatever an earlier run of the same objects ended with)
+    for s in v.info:
+        if v.is_sched(s) and s not in v.began and s in diag:
+            ft, fc, why = diag[s]
+            if (ft is not False and ft is not None) or fc or why != "FINE":
+                V.append("C04 %s did not run in this run but reports %r" % (s, diag[s]))
     # a scheduler cancelled by its enclosing scheduler while it was cleaning up after a critical failure of its own:
     # the cause of its end is still that failure
     for s in v.began:
